@@ -103,6 +103,25 @@ def gen_sol(rng, family):
         sufs.append((kind, name, table, vals))
     s['sufs'] = sufs
     s['family'] = family
+    # writer entry point: mp::WriteSolFile directly, or through mp::SolutionWriterImpl (final <stub>.sol / intermediate <solstub>N.sol):
+    # there the vectors are either absent or have exactly the problem's sizes, which need not be equal (non-square problems)
+    s['via'] = rng.choice(['direct', 'direct', 'direct', 'final', 'stub', 'stub', 'multi', 'ovr-rel', 'ovr-abs'])
+    if s['via'] != 'direct':
+        s['ncons'] = rng.choice([0, 1, 2, 3, 7, 12])
+        s['nvars'] = rng.choice([0, 1, 2, 5, 9, 12])
+        s['duals'] = [val() for _ in range(s['ncons'])] if rng.random() < 0.8 else []
+        s['primals'] = [val() for _ in range(s['nvars'])] if rng.random() < 0.85 else []
+        s['status'] = rng.choice([0, 100, 200, 299, 500, 567, -1, 999])
+        if s['via'] == 'multi':
+            # need_multiple_solutions(): k intermediate solutions, then HandleSolution adds the suffixes nsol / npool (problem and objective kind)
+            k, nobj = rng.choice([0, 1, 3]), rng.choice([0, 1, 1, 2])
+            s['via'] = 'multi:%d:%d' % (k, nobj)
+            s['sufs'] = [x for x in s['sufs'] if x[1] not in (b'nsol', b'npool')]
+            for nm in (b'nsol', b'npool'):
+                s['sufs'].append((3 | 16 | 64, nm, b'', [k]))
+                if nobj:
+                    s['sufs'].append((2 | 16 | 64, nm, b'', [k] + [0] * (nobj - 1)))
+        s['family'] = family + ':' + s['via'].split(':')[0]
     return s
 
 
@@ -121,9 +140,9 @@ def sol_line(cid, s, nvd, ncd):
     for kind, name, table, vals in set_order(s['sufs']):
         v = (reals(vals) if kind & 4 else ','.join(str(x) for x in vals)) or '-'
         sufs.append('%d:%s:%s:%s' % (kind, name.hex() or '-', table.hex() or '-', v))
-    return 'sol %s %d %d %d %s %s %d %d %s %s %d %d %s' % (
+    return 'sol %s %d %d %d %s %s %d %d %s %s %d %d %s %s' % (
         cid, C14.FX[0], nvd, ncd, s['msg'].hex() or '-', ','.join(map(str, s['options'])) or '-', s['ncons'], s['nvars'],
-        reals(s['duals']), reals(s['primals']), s['objno'], s['status'], ';'.join(sufs) or '-')
+        reals(s['duals']), reals(s['primals']), s['objno'], s['status'], ';'.join(sufs) or '-', s.get('via', 'direct'))
 
 
 # ---------------------------------------------------------------- the property, evaluated on what the real writer+reader did
@@ -153,7 +172,7 @@ def side_conditions(s):
         return 'options:zero-options'
     if n in (1, 2):
         return 'options:count-1-or-2'
-    if s['options'][1] == 3:
+    if len(s['options']) > 1 and s['options'][1] == 3:
         return 'options:vbtol-flag-3'
     if any(l.endswith(b'\r') for l in lines):
         return 'message:line-ends-with-cr'
@@ -251,7 +270,59 @@ def oracle(s, line, nvd, ncd):
     return bad
 
 
+ANCHORS = ['include/mp/sol.h', 'src/sol.cc', 'include/mp/solver-io.h', 'include/mp/suffix.h', 'nl-writer2/include/mp/sol-reader2.h',
+           'nl-writer2/include/mp/sol-reader2.hpp', 'nl-writer2/include/mp/sol-handler.h', 'nl-writer2/src/nl-utils.cc', 'include/mp/format.h', 'src/format.cc']
+MECH = [r'WriteSolFile', r'WriteSuffixes', r'SuffixValue', r'WriteMessage', r'gsufread', r'sufheadcheck', r'decstring', r'mp::Read', r'Lget', r'ReadSOLFile',
+        r'SolutionWriterImpl', r'SolutionAdapter', r'VisitValues', r'CheckReader', r'VecReader']
+
+
+def make_cases(ck, n_cases):
+    rng = random.Random(ck.seed * 1000003 + 5)
+    fams = ['plain'] * 10 + ['nonfinite'] * 2 + ['hostile-message'] * 2 + ['options-0', 'options-12', 'options-vbtol']
+    cases = []
+    cdir = os.path.join(VERIF, 'corpus', 'C05')
+    if os.path.isdir(cdir):
+        for fn in sorted(os.listdir(cdir)):
+            if fn.endswith('.json'):
+                c = json.load(open(os.path.join(cdir, fn)))
+                s = dict(msg=bytes.fromhex(c['msg']), options=c['options'], ncons=c['ncons'], nvars=c['nvars'], duals=c['duals'], primals=c['primals'],
+                         objno=c['objno'], status=c['status'], sufs=[(k, bytes.fromhex(n), bytes.fromhex(t), v) for k, n, t, v in c.get('sufs', [])],
+                         family='corpus:' + fn[:-5], via=c.get('via', 'direct'))
+                cases.append((s, c.get('nvd', s['nvars']), c.get('ncd', s['ncons'])))
+    while len(cases) < n_cases:
+        s = gen_sol(rng, rng.choice(fams))
+        nvd = s['nvars'] if rng.random() < 0.8 else len(s['primals'])
+        ncd = s['ncons'] if rng.random() < 0.8 else len(s['duals'])
+        cases.append((s, nvd, ncd))
+    return cases
+
+
+def coverage_run(ck):
+    import covtool
+    C14.FX[0] = 3
+    cases = make_cases(ck, 800)
+    covdir = os.path.join(BUILD, 'cov_c05')
+    cov_src = [os.path.join(VERIF, 'harness', 'h_solrt.cc'), os.path.join(REPO, 'src', 'sol.cc'), os.path.join(REPO, 'src', 'format.cc'),
+               os.path.join(REPO, 'nl-writer2', 'src', 'nl-utils.cc')]
+    others = [o for o in ck.libmp_objects(flags=('-O0', '-g')) if '-sol_cc-' not in o and '-format_cc-' not in o]
+    exe = covtool.build(covdir, cov_src, extra_objs=others)
+    cf = os.path.join(covdir, 'cases.txt')
+    with open(cf, 'w') as f:
+        for k, (s, nvd, ncd) in enumerate(cases):
+            f.write(sol_line('s%d' % k, s, nvd, ncd) + '\n')
+    sh([exe, cf, covdir], timeout=3000)
+    sh([exe, 'codec', '20000', '1'], timeout=3000)
+    files = covtool.collect(covdir)
+    res = covtool.summarize(files, ANCHORS, MECH)
+    p = covtool.write_report('C05', res)
+    ck.log('coverage: anchored files %s %% lines, %s %% branches; mechanisms %s / %s; %d uncovered items -> %s'
+           % (res['anchor_line_cov'], res['anchor_branch_cov'], res['mechanism_line_cov'], res['mechanism_branch_cov'], len(res['mechanism_uncovered']), p))
+    ck.cov.update({'evaluations': len(cases), 'distinct_nontrivial': 0, 'rule': 'coverage measurement run (VERIF_COVERAGE=1), no verdict', 'obligations': 0, 'discharged': 0})
+
+
 def run(ck):
+    if os.environ.get('VERIF_COVERAGE'):
+        return coverage_run(ck)
     ck.level = 'proof'
     proof_ok, failing = ck.proof_stage('MpVerif.C05.Props', 'MpVerif/C05/Props.lean', 'C05_',
                                         ['MpVerif/C05/*.lean', 'MpVerif/C14/Model*.lean', 'MpVerif/C14/Lemmas*.lean'], expect_min=19)
@@ -264,25 +335,8 @@ def run(ck):
 
     # which variant of the reader model applies to the tree under test (see checks/c14.py)
     C14.decide_variant(ck, 'probe05')
-    rng = random.Random(ck.seed * 1000003 + 5)
     n_cases = 800 if ck.tier == 'quick' else 20000
-    fams = ['plain'] * 10 + ['nonfinite'] * 2 + ['hostile-message'] * 2 + ['options-0', 'options-12', 'options-vbtol']
-    cases = []
-    # fixed corpus first
-    cdir = os.path.join(VERIF, 'corpus', 'C05')
-    if os.path.isdir(cdir):
-        for fn in sorted(os.listdir(cdir)):
-            if fn.endswith('.json'):
-                c = json.load(open(os.path.join(cdir, fn)))
-                s = dict(msg=bytes.fromhex(c['msg']), options=c['options'], ncons=c['ncons'], nvars=c['nvars'], duals=c['duals'], primals=c['primals'],
-                         objno=c['objno'], status=c['status'], sufs=[(k, bytes.fromhex(n), bytes.fromhex(t), v) for k, n, t, v in c.get('sufs', [])],
-                         family='corpus:' + fn[:-5])
-                cases.append((s, c.get('nvd', s['nvars']), c.get('ncd', s['ncons'])))
-    while len(cases) < n_cases:
-        s = gen_sol(rng, rng.choice(fams))
-        nvd = s['nvars'] if rng.random() < 0.8 else len(s['primals'])
-        ncd = s['ncons'] if rng.random() < 0.8 else len(s['duals'])
-        cases.append((s, nvd, ncd))
+    cases = make_cases(ck, n_cases)
 
     work = os.path.join(BUILD, 'c05work')
     os.makedirs(work, exist_ok=True)
@@ -321,7 +375,10 @@ def run(ck):
             corr_bad.append((cl, il, ml, 'bad-op'))
             continue
         if ' || ' not in il:
-            ck.add_violation('writer-or-reader-abort', 'real writer/reader aborted: %s [family %s]' % (il[:100], s['family']), {'case': cl, 'impl': il})
+            sig = 'writer-or-reader-abort'
+            if s.get('via', '').startswith('multi:') and s['via'].endswith(':0'):
+                sig = 'writer:need-multiple-solutions-without-objective:abort'
+            ck.add_violation(sig, 'real writer/reader aborted: %s [family %s, via %s]' % (il[:100], s['family'], s.get('via')), {'case': cl, 'impl': il})
             continue
         ib, _, ir = il.partition(' || ')
         mb, _, mr = ml.partition(' || ')
@@ -397,6 +454,13 @@ def run(ck):
         'correspondence': {'lines_compared_model_vs_impl': len(cases), 'disagreements': len(corr_bad)}, 'exhaustive': False,
         
     })
+    try:
+        cj = json.load(open(os.path.join(VERIF, 'design_notes', 'coverage', 'C05.json')))
+        ck.cov.update({'anchor_line_cov': cj['anchor_line_cov'], 'anchor_branch_cov': cj['anchor_branch_cov'],
+                       'mechanism_line_cov': cj.get('mechanism_line_cov'), 'mechanism_branch_cov': cj.get('mechanism_branch_cov'),
+                       'coverage_note': 'measured by the last VERIF_COVERAGE=1 run (gcov-12, quick-tier stream), see design_notes/coverage/C05.md; reader-side error paths and the binary format are covered by C14'})
+    except Exception:
+        pass
     ck.notes.append('C05_roundtrip is proved for all solutions meeting the explicit side conditions Wf (model level, modulo the number codec: hypotheses GoodNum/GoodSufTok on the printed text are evaluated on every real of the run; the numeric half strtod(enc x) ~ x is TESTED, not proved); agreement of the models with the real writer and reader is sampled')
     ck.assumptions += [
         'number codec: the text fmt prints for a real ({:.16}) is read by strtod as a value within the property tolerance: TESTED per run, not proved',
